@@ -2,7 +2,7 @@
    head sample and the loop collecting buffer[consume.head .. consume.tail). *)
 From Coq Require Import List ZArith NArith PArith Bool Lia ZifyBool ZifyNat ZifyN.
 Import ListNotations.
-From Verif Require Import Common.Base Model.SampleBuilder
+From Verif Require Import Common.Base Model.SampleBuilder Model.SampleBuilderSpec
   Proofs.SampleBuilderArith Proofs.SampleBuilderIter Proofs.SampleBuilderMap Proofs.SampleBuilder.
 Open Scope N_scope.
 Ltac Zify.zify_post_hook ::= Z.div_mod_to_equations.
